@@ -248,6 +248,12 @@ class ExprCanon(ast.NodeTransformer):
             if isinstance(v, ast.Call) and isinstance(v.func, ast.Attribute) and v.func.attr == "split" and len(v.args) == 1 and not v.keywords:
                 call = _loc(ast.Call(func=_loc(ast.Attribute(value=v.func.value, attr="rsplit", ctx=ast.Load()), v.func), args=[v.args[0], _loc(ast.Constant(value=1), v)], keywords=[]), v)
                 node.value = call
+        # (a, b)[0] with plain elements (names, constants, attributes of names)  ->  a
+        if isinstance(node.ctx, ast.Load) and isinstance(v, ast.Tuple) and isinstance(node.slice, ast.Constant) and isinstance(node.slice.value, int) and not isinstance(node.slice.value, bool) and 0 <= node.slice.value < len(v.elts):
+            def _plain(e):
+                return isinstance(e, (ast.Name, ast.Constant)) or (isinstance(e, ast.Attribute) and _plain(e.value)) or (isinstance(e, ast.Tuple) and all(_plain(x) for x in e.elts))
+            if all(_plain(e) for e in v.elts):
+                return v.elts[node.slice.value]
         return node
 
     def visit_BoolOp(self, node):
@@ -834,6 +840,8 @@ def _atomic_row(e):
         return True  # a function value: substituted where it is called
     if isinstance(e, ast.Tuple) and e.elts and all(isinstance(x, (ast.Name, ast.Attribute, ast.Constant)) for x in e.elts):
         return True  # a tuple of classes / constants (isinstance(x, (A, B)), membership)
+    if isinstance(e, ast.Tuple) and e.elts and all(isinstance(x, (ast.Name, ast.Attribute, ast.Constant)) or (isinstance(x, ast.Tuple) and all(isinstance(y, ast.Constant) for y in x.elts)) for x in e.elts):
+        return True  # a row of a table whose columns are constants or tuples of constants (read by position)
     if isinstance(e, ast.Name):
         return True
     if isinstance(e, ast.Attribute):
@@ -2223,7 +2231,120 @@ def _canonicalise(tree):
     return tree
 
 
+def _fold_table_comprehensions(tree):
+    """module level: `X = {K: V for a, b in T.items()}` (also `for a in T`, list / set forms over `T.items()` / `T.values()`)
+    with T a module-level dict display that is bound once and never stored into is the display it evaluates to
+    (row values are names, constants, tuples of these, or constructions of a class of this module: evaluating them again
+    per use yields an equal value).  `(a, b)[0]` with plain elements is `a`."""
+    classes = {s.name for s in tree.body if isinstance(s, ast.ClassDef)}
+    binds = {}
+    for s in tree.body:
+        if isinstance(s, ast.Assign) and len(s.targets) == 1 and isinstance(s.targets[0], ast.Name):
+            binds.setdefault(s.targets[0].id, []).append(s)
+    stored = set()
+    for n in ast.walk(tree):
+        if isinstance(n, (ast.Subscript, ast.Attribute)) and isinstance(n.ctx, (ast.Store, ast.Del)) and isinstance(n.value, ast.Name):
+            stored.add(n.value.id)
+        if isinstance(n, ast.Call) and isinstance(n.func, ast.Attribute) and isinstance(n.func.value, ast.Name) and n.func.attr in ("update", "setdefault", "pop", "popitem", "clear", "__setitem__"):
+            stored.add(n.func.value.id)
+        if isinstance(n, (ast.Global, ast.Nonlocal)):
+            stored |= set(n.names)
+
+    def plain(e):
+        if isinstance(e, (ast.Name, ast.Constant)):
+            return True
+        if isinstance(e, ast.Attribute):
+            return plain(e.value)
+        if isinstance(e, ast.Tuple):
+            return all(plain(x) for x in e.elts)
+        if isinstance(e, ast.Call) and isinstance(e.func, ast.Name) and e.func.id in classes and not e.keywords:
+            return all(plain(x) for x in e.args)
+        if isinstance(e, ast.Call) and isinstance(e.func, ast.Name) and e.func.id in classes:
+            return all(plain(x) for x in e.args) and all(k.arg and plain(k.value) for k in e.keywords)
+        return False
+
+    def table(name):
+        b = binds.get(name, [])
+        if len(b) != 1 or name in stored or not isinstance(b[0].value, ast.Dict):
+            return None
+        d = b[0].value
+        if not d.keys or len(d.keys) > 60 or any(k is None or not isinstance(k, ast.Constant) for k in d.keys) or not all(plain(v) for v in d.values):
+            return None
+        return d
+
+    class Sub(ast.NodeTransformer):
+        def __init__(self, m):
+            self.m = m
+
+        def visit_Name(self, n):
+            if isinstance(n.ctx, ast.Load) and n.id in self.m:
+                return copy.deepcopy(self.m[n.id])
+            return n
+
+    changed = False
+    for s in tree.body:
+        if not (isinstance(s, ast.Assign) and isinstance(s.value, (ast.DictComp, ast.ListComp, ast.SetComp)) and len(s.value.generators) == 1):
+            continue
+        c = s.value
+        g = c.generators[0]
+        if g.ifs or g.is_async:
+            continue
+        it = g.iter
+        how = None
+        if isinstance(it, ast.Call) and isinstance(it.func, ast.Attribute) and isinstance(it.func.value, ast.Name) and it.func.attr in ("items", "values", "keys") and not it.args and not it.keywords:
+            tname, how = it.func.value.id, it.func.attr
+        elif isinstance(it, ast.Name):
+            tname, how = it.id, "keys"
+        else:
+            continue
+        d = table(tname)
+        if d is None or (binds.get(tname) and tree.body.index(binds[tname][0]) > tree.body.index(s)):
+            continue
+        rows = []
+        ok = True
+        for k, v in zip(d.keys, d.values):
+            if how == "items" and isinstance(g.target, ast.Tuple) and len(g.target.elts) == 2 and all(isinstance(t, ast.Name) for t in g.target.elts):
+                m = {g.target.elts[0].id: k, g.target.elts[1].id: v}
+            elif how == "keys" and isinstance(g.target, ast.Name):
+                m = {g.target.id: k}
+            elif how == "values" and isinstance(g.target, ast.Name):
+                m = {g.target.id: v}
+            else:
+                ok = False
+                break
+            if isinstance(c, ast.DictComp):
+                rows.append((Sub(m).visit(copy.deepcopy(c.key)), Sub(m).visit(copy.deepcopy(c.value))))
+            else:
+                rows.append(Sub(m).visit(copy.deepcopy(c.elt)))
+        if not ok:
+            continue
+        if isinstance(c, ast.DictComp):
+            if not all(isinstance(k, ast.Constant) for k, _ in rows) or len({k.value for k, _ in rows}) != len(rows):
+                continue
+            s.value = _loc(ast.Dict(keys=[k for k, _ in rows], values=[v for _, v in rows]), c)
+        elif isinstance(c, ast.ListComp):
+            s.value = _loc(ast.List(elts=rows, ctx=ast.Load()), c)
+        else:
+            continue
+        changed = True
+    if changed:
+        # a private table that was only there to be iterated is dead now
+        loads = {}
+        for n in ast.walk(tree):
+            if isinstance(n, ast.Name) and isinstance(n.ctx, ast.Load):
+                loads[n.id] = loads.get(n.id, 0) + 1
+        exported = set()
+        for st in tree.body:
+            if isinstance(st, ast.Assign) and any(isinstance(t, ast.Name) and t.id == "__all__" for t in st.targets):
+                exported |= {x.value for x in ast.walk(st.value) if isinstance(x, ast.Constant) and isinstance(x.value, str)}
+        tree.body = [st for st in tree.body if not (isinstance(st, ast.Assign) and len(st.targets) == 1 and isinstance(st.targets[0], ast.Name) and st.targets[0].id.startswith("_") and not st.targets[0].id.startswith("__") and st.targets[0].id not in exported and isinstance(st.value, ast.Dict) and loads.get(st.targets[0].id, 0) == 0 and table(st.targets[0].id) is not None)]
+        ast.fix_missing_locations(tree)
+        tree = ExprCanon().visit(tree)
+    return tree
+
+
 def _canonicalise_once(tree):
+    tree = _fold_table_comprehensions(tree)
     tree = ExprCanon().visit(tree)
     tree = _Tests().visit(tree)
     tree.body = [canon_stmt(s) for s in tree.body]
